@@ -213,6 +213,10 @@ async fn scenario(head: Vec<String>, ops: Vec<Vec<String>>) -> Vec<String> {
                         let rtok = ep.to_string().parse::<Endpoint>().map(|e| e == ep).unwrap_or(false);
                         out.push(format!("b#{}=ok:{}:{}:rt={}", bound.len(), kind, if port != 0 { "port>0" } else { "port0" }, if rtok { "ok" } else { "bad" }));
                         bound.push(ep);
+                        // `monlate` in the head: the monitor is asked for only after the (first) bind
+                        if monitor.is_none() && head.iter().any(|h| h == "monlate") {
+                            monitor = Some(sock_monitor(sock.as_mut().unwrap()));
+                        }
                     }
                     Err(e) => out.push(format!("b=err:{}", zeromq::__verif::error_class(&e))),
                 }
